@@ -66,6 +66,10 @@ let rn_event_of s =
 let () =
   register "status_consts" (fun _ ->
       String.concat "," (List.map rn_status_str [NStandby; NHandshaking; NTransferring]));
+  register "client_decode_escape" (function [e] ->
+      let w = { (rn_wc_of "~,~,~,~,~,~,~,~,~,~,~,~,~") with nwc_escape = rn_esc_of e } in
+      (match decode_config_into (rn_client_init false false) w with None -> "err" | Some _ -> "ok")
+    | _ -> "?args");
   register "handshake" (function [mode; width; win; act; cfg] ->
       let a = if act = "bad" then None else Some (rn_wa_of act) in
       let c = if cfg = "bad" || cfg = "none" then None else Some (rn_wc_of cfg) in
